@@ -204,6 +204,37 @@ func c03Case(c *mon.Ctx, idx int, r *mon.Rand) {
 		}) {
 			continue
 		}
+		// the slice handed to Histogram() must be left as it was ...
+		checkCallerSlice := func(when string) {
+			switch a := arg.(type) {
+			case tally.ValueBuckets:
+				if !sameBitsV([]float64(a), effV) && form == "given" {
+					c.Violation("caller-slice-modified/"+kind, map[string]interface{}{"why": fmt.Sprintf("%s: the caller's bucket slice was changed: now %v", when, a), "spec": desc})
+				}
+			case tally.DurationBuckets:
+				if fmt.Sprint([]time.Duration(a)) != fmt.Sprint(effD) && form == "given" {
+					c.Violation("caller-slice-modified/"+kind, map[string]interface{}{"why": fmt.Sprintf("%s: the caller's bucket slice was changed: now %v", when, a), "spec": desc})
+				}
+			}
+		}
+		checkCallerSlice("after Histogram()")
+		// ... and belongs to the caller: in half of the cases it is overwritten
+		// now (the histogram must keep the bounds it was created with)
+		vandalised := false
+		if form == "given" && r.Bool() {
+			vandalised = true
+			switch a := arg.(type) {
+			case tally.ValueBuckets:
+				for i := range a {
+					a[i] = float64(i) + 0.5
+				}
+			case tally.DurationBuckets:
+				for i := range a {
+					a[i] = time.Duration(i) + 7
+				}
+			}
+			c.Class("cases-with-caller-slice-overwritten-after-creation", 1)
+		}
 		rounds := 1 + r.Intn(2)
 		for k := 0; k < rounds; k++ {
 			if c.Guard("panic-record", detail, func() { record(h) }) {
@@ -214,18 +245,13 @@ func c03Case(c *mon.Ctx, idx int, r *mon.Rand) {
 			}
 		}
 		mult := int64(rounds)
-		// the slice handed to Histogram() must be left as it was
-		switch a := arg.(type) {
-		case tally.ValueBuckets:
-			if !sameBitsV([]float64(a), effV) && form == "given" {
-				c.Violation("caller-slice-modified/"+kind, map[string]interface{}{"why": fmt.Sprintf("Histogram() changed the caller's bucket slice: now %v", a), "spec": desc})
-			}
-		case tally.DurationBuckets:
-			if fmt.Sprint([]time.Duration(a)) != fmt.Sprint(effD) && form == "given" {
-				c.Violation("caller-slice-modified/"+kind, map[string]interface{}{"why": fmt.Sprintf("Histogram() changed the caller's bucket slice: now %v", a), "spec": desc})
-			}
+		if !vandalised {
+			checkCallerSlice("after recording and reporting")
+		} else if isDur {
+			arg = tally.DurationBuckets(append([]time.Duration(nil), dspec...)) // fresh slice for the next reporter kind
+		} else {
+			arg = tally.ValueBuckets(append([]float64(nil), vspec...))
 		}
-
 		var gotV = map[float64]int64{}
 		var gotD = map[time.Duration]int64{}
 		bad := func(sig string, why string, extra interface{}) {
